@@ -122,7 +122,7 @@ M("c15-early-clear", "C15", "io/ramses.py", "        groups = self.loader.load(*
 # ---------------------------------------------------------------- C03
 M("c03-unfix-radial", "C03", "plot/map.py", "            xyz[indices_close_to_plane].norm\n            - 0.5 * cell_size[indices_close_to_plane] * diagonal\n        )\n        radial_selection = (\n            radial_distance.values\n", "            xyz[indices_close_to_plane]\n            - 0.5 * cell_size[indices_close_to_plane] * diagonal\n        )\n        radial_selection = (\n            np.abs(radial_distance.norm.values)\n", "component-wise subtraction again (the original defect)")
 M("c03-footprint-no-diagonal", "C03", "plot/utils.py", "        half_size = cell_sizes[n] * diagonal", "        half_size = cell_sizes[n]", "pixel footprint of a cell without the diagonal factor (rotated maps lose corners)")
-M("c03-selection-quarter", "C03", "plot/map.py", "    selection_distance = 0.5 * diagonal * (dz if thick else cell_size)", "    selection_distance = 0.25 * diagonal * (dz if thick else cell_size)", "cells near the plane selected within half the needed distance")
+M("c03-selection-quarter", "C03", "plot/map.py", "    selection_distance = 0.5 * diagonal * cell_size\n", "    selection_distance = 0.25 * diagonal * cell_size\n", "cells near the plane selected within half the needed distance")
 M("c03-original-basis-swapped", "C03", "plot/map.py", "        cell_positions_in_original_basis_x=coords.x.values / div,\n        cell_positions_in_original_basis_y=(\n            coords.y.values / div if coords.y is not None else None\n        ),", "        cell_positions_in_original_basis_x=coords.y.values / div,\n        cell_positions_in_original_basis_y=(\n            coords.x.values / div if coords.y is not None else None\n        ),", "x/y of the original basis swapped in the containment test")
 M("c03-scale-ratio-inverted", "C03", "plot/map.py", "    scale_ratio = (1.0 * spatial_unit).to(map_unit).magnitude", "    scale_ratio = 1.0 / (1.0 * spatial_unit).to(map_unit).magnitude", "pixel coordinates scaled the wrong way when dx is given in another unit")
 M2("c03-shared-temporary", "C03", [
@@ -137,13 +137,13 @@ M("c03-ix2-no-plus-one", "C03", "plot/utils.py", "            + 1,\n            
 # ---------------------------------------------------------------- C11
 M("c11-unfix-slab", "C11", "plot/map.py", "    selection_distance = 0.5 * diagonal * cell_size\n    if thick:\n        selection_distance = selection_distance + 0.5 * dz\n", "    selection_distance = 0.5 * diagonal * (dz if thick else cell_size)\n", "slab pre-selection ignores the cell size (the original defect)")
 M("c11-unfix-auto-dz", "C11", "plot/map.py", "        if thick:\n            # The depth range is given by the requested thickness, not by the data\n            zmin = -0.5 * dz.magnitude\n            zmax = zmin + dz.magnitude\n", "", "automatic window ignores dz (the original defect)")
-M("c11-no-zspacing", "C11", "plot/map.py", "        binned *= zspacing\n", "        binned *= 1.0\n", "sum not multiplied by the depth step")
+M("c11-no-zspacing", "C11", "plot/map.py", "            reduced[inds] *= zspacing\n", "            reduced[inds] *= 1.0\n", "sum not multiplied by the depth step")
 M("c11-no-unit-product", "C11", "plot/map.py", '            layer["unit"] = layer["unit"] * dataz.unit', '            layer["unit"] = layer["unit"] * 1', "unit of a column sum not multiplied by the length unit")
 M("c11-z-int", "C11", "plot/map.py", '            resolution["z"] = round((zmax - zmin) / (0.5 * (xspacing + yspacing)))', '            resolution["z"] = int((zmax - zmin) / (0.5 * (xspacing + yspacing)))', "depth resolution truncated instead of rounded")
 M("c11-zcenters-shift", "C11", "plot/map.py", "            zmin + 0.5 * zspacing, zmax - 0.5 * zspacing, resolution[\"z\"]\n", "            zmin + 1.0 * zspacing, zmax - 0.0 * zspacing, resolution[\"z\"]\n", "depth samples shifted by half a step")
-M("c11-factor-sum-only", "C11", "plot/map.py", '    if thick and ((operation == "sum") or (operation == "nansum")):', '    if thick and (operation == "sum"):', "nansum neither scaled nor given the length unit")
-M("c11-mean-scaled", "C11", "plot/map.py", '    if thick and ((operation == "sum") or (operation == "nansum")):', '    if thick and (operation in ("sum", "nansum", "mean")):', "mean also multiplied by the depth step")
-M("c11-reduce-axis", "C11", "plot/map.py", "    binned = getattr(np, operation)(binned, axis=1)", "    binned = getattr(np, operation)(binned[:, ::2, ...] if binned.shape[1] > 3 else binned, axis=1)", "every second depth sample dropped for deep stacks")
+M("c11-factor-sum-only", "C11", "plot/map.py", '        if thick and (operations[ind] in ("sum", "nansum")):', '        if thick and (operations[ind] == "sum"):', "nansum neither scaled nor given the length unit")
+M("c11-mean-scaled", "C11", "plot/map.py", '        if thick and (operations[ind] in ("sum", "nansum")):', '        if thick and (operations[ind] in ("sum", "nansum", "mean")):', "mean also multiplied by the depth step")
+M("c11-reduce-axis", "C11", "plot/map.py", "        reduced[inds] = getattr(np, operations[ind])(binned[inds], axis=1)", "        reduced[inds] = getattr(np, operations[ind])(binned[inds][:, ::2, ...] if binned.shape[1] > 3 else binned[inds], axis=1)", "every second depth sample dropped for deep stacks")
 M("c11-iz-footprint", "C11", "plot/utils.py", "            + 1,\n            nz,\n        )", "            + 0,\n            nz,\n        )", "depth footprint excludes its last sample")
 
 # ---------------------------------------------------------------- C19
